@@ -19,7 +19,7 @@ class Contract:
     def __init__(self, target, serves=(), types=None, returns=None, requires=(), ensures=(), raises=None,
                  loops=None, modifies=(), ghosts=None, on_call=None, examples=None, variant='', trusted=False,
                  locals=None, self_fields=None, notes='', assumes=(), lemmas=(), opaque_loops=(), fix=None, params=None,
-                 rebinds=(), allocates=False, new_graph_schema='mol', opaque=(), abstract=(), heap_invariants=()):
+                 rebinds=(), allocates=False, new_graph_schema='mol', opaque=(), abstract=(), heap_invariants=(), callee_clauses=None, returns_fresh=False):
         self.target = target          # 'cgsmiles.resolve:compatible' / 'cgsmiles.resolve:MoleculeResolver.resolve'
         self.variant = variant
         self.serves = list(serves)
@@ -45,6 +45,8 @@ class Contract:
         self.rebinds = list(rebinds)          # 'self.x' fields the method re-binds
         self.allocates = allocates            # creates graphs (heap must be havoc'd even without a modifies clause)
         self.new_graph_schema = new_graph_schema
+        self.returns_fresh = returns_fresh    # the returned graph is newly allocated by the call
+        self.callee_clauses = dict(callee_clauses or {})   # callee name -> substrings selecting which of its ensures are used here
         self.heap_invariants = set(heap_invariants)   # data invariants assumed of every graph and re-proved at each write
         self.abstract = set(abstract)         # spec functions used as fully uninterpreted symbols here (no definition needed)
         self.opaque = set(opaque) | self.abstract             # spec functions whose definition is hidden in this function's VCs
@@ -55,11 +57,11 @@ class Contract:
 
     @property
     def module(self):
-        return self.target.split(':')[0]
+        return self.target.split(':')[0] if ':' in self.target else self.target.rsplit('.', 1)[0]
 
     @property
     def qualname(self):
-        return self.target.split(':')[1]
+        return self.target.split(':')[1] if ':' in self.target else self.target.rsplit('.', 1)[1]
 
     def clause_count(self):
         return len(self.requires) + len(self.ensures) + len(self.raises) + sum(len(l.invariant) for l in self.loops.values())
